@@ -606,10 +606,18 @@ def c17_attrs(cls: int, how: int, n: int) -> bool:
   return True
 
 
+def _names(text, name):
+  """`name` occurs in `text` as a token of its own (quoted or not): the wording around it is Gin's business."""
+  import re
+  return re.search(r'(?<![\w./])%s(?![\w/])' % re.escape(name), text) is not None
+
+
 def suffix_ok(suffix, conf, scope):
-  if ("In call to configurable '%s'" % conf) not in suffix:
+  """The text appended to the message names the configurable and the active scope (today: "In call to
+  configurable 'x' (<...>) in scope 's'")."""
+  if not _names(suffix, conf):
     return rt.no('suffix does not name the configurable %s: %r' % (conf, suffix))
-  if scope and ("in scope '%s'" % scope) not in suffix:
+  if scope and not _names(suffix, scope):
     return rt.no('suffix does not name the scope %s: %r' % (scope, suffix))
   return True
 
@@ -652,7 +660,7 @@ def c17_msg(cls: int, how: int, n: int, grp: int = -1) -> bool:
         raise rt.HarnessError('the raising probe did not run (how=%d)' % how)
       if not suffix_ok(suffix, conf, '/'.join(SEEN[0])):     # the scope that was active where it was raised
         return False
-    if how in (1, 2) and "configurable 'outer1'" not in suffix:
+    if how in (1, 2) and not _names(suffix, 'outer1'):
       return rt.no('outer level missing')
     return True
 
@@ -836,7 +844,7 @@ def c17_missing_positional(kwname: int, boundname: int, scoped: bool, v: int) ->
     return rt.no('no TypeError')
   with rt.native():
     msg = str(caught)
-    return ("In call to configurable 'reqkw'" in msg and (ODD_NAMES[kwname] + '_c') in msg) or rt.no(
+    return (_names(msg, 'reqkw') and (ODD_NAMES[kwname] + '_c') in msg) or rt.no(
         'message %r' % msg)
 
 
